@@ -6,5 +6,6 @@ import "verif/mon"
 func main() {
 	mon.Main(map[string]func(*mon.Run){
 		"C46": checkC46,
+		"C47": checkC47,
 	})
 }
